@@ -8,7 +8,8 @@ Line protocol of the file-system model (C09 C10):
 
 query:  calls            → the call list of the fault-free run
         kill <k>         → state after the first k calls
-        fault <i> <f>    → i-th call (0-based) fails with f ∈ ENOSPC EIO EACCES short
+        fault <i> <f> <kept> → i-th call (0-based) fails with f ∈ ENOSPC EIO EACCES short;
+                          kept = bytes stdio had flushed itself before a failing fclose
 script: init ; … ; free ; fini as for drv_rt (single thread).  `order` is the
 readdir order, one character per entry ('.' ':' 'o' 'j').  The JSON texts are
 not modelled: the k-th metadata store writes jsize_k bytes.
@@ -146,15 +147,15 @@ def script (line : List String) : String :=
           let o := crashAt ser p k
           s!"{outcomeStr o} flushed={(o.fs.flushed tp.tid).length} fs={fsStr o.fs}"
         | none => "bad-query"
-      | ["fault", i, f] =>
-        match i.toNat?, parseFault f with
-        | some i, some f =>
-          let o := faultAt ser p i f
+      | ["fault", i, f, kept] =>
+        match i.toNat?, parseFault f, kept.toNat? with
+        | some i, some f, some kept =>
+          let o := faultAt ser p i f kept
           let fired := match cs[i]? with
             | some c => fires c.op f
             | none => false
           s!"{outcomeStr o} fired={if fired then 1 else 0} flushed={Drivers.toHex (o.fs.flushed tp.tid)} trace={callsStr (faultTrace ser p i f)} fs={fsStr o.fs}"
-        | _, _ => "bad-query"
+        | _, _, _ => "bad-query"
       | _ => "bad-query"
     | _, _, _, _, _ => "bad-op"
   | _ => "bad-line"
